@@ -42,7 +42,7 @@ def queries(tier):
                     desc='%s, %dx%d, alpha=%d, %d-bit samples, %s: exception or identical' % (('colour PPM/PAM save: file == canonical Netpbm header + raw samples', 'grayscale PPM/PAM input: (g,g,g[,a]) expansion, memory safety', 'colour PPM/PAM load of the canonical file: identity')[mode], W, H, A, CW, 'every prefix that ends inside the samples (symbolic)' if tlen is None else 'prefix of %d bytes (inside the header)' % tlen),
                     bounds='image %dx%d, all sample bytes, every truncation length' % (W, H))
     if tier == 'quick':
-        qs += [ppm(0, 2, 2, 0, 8), ppm(2, 2, 2, 0, 8), ppm(2, 2, 2, 0, 8, 5), ppm(2, 2, 2, 0, 8, 999), ppm(2, 2, 2, 0, 8, 10), ppm(2, 2, 2, 0, 8, 11), ppm(2, 2, 2, 0, 8, 14), ppm(2, 1, 2, 0, 16), ppm(2, 2, 1, 0, 64), ppm(2, 2, 1, 0, 64, 27), ppm(1, 2, 2, 0, 8), ppm(1, 1, 2, 0, 16)]
+        qs += [ppm(0, 2, 2, 0, 8), ppm(2, 2, 2, 0, 8), ppm(2, 2, 2, 0, 8, 5),  ppm(2, 1, 2, 0, 16), ppm(2, 2, 1, 0, 64), ppm(2, 2, 1, 0, 64, 27), ppm(1, 2, 2, 0, 8), ppm(1, 1, 2, 0, 16)]
     if tier == 'quick':
         qs += [bmpvar(2, 2, 24, 0, 0, 40), bmpvar(3, 2, 24, 0, 1, 40), bmpvar(2, 2, 32, 0, 0, 40), bmpvar(2, 2, 32, 3, 0, 124, 2), bmpvar(1, 2, 32, 3, 1, 108)]
     if tier == 'quick':
